@@ -3,11 +3,18 @@
 import collections, glob, json, os, re
 ROOT = "/verif"
 rows = collections.OrderedDict()
+invalid_names = set()
 for line in open(f"{ROOT}/selftest/results.tsv"):
     f = line.rstrip("\n").split("\t")
     if len(f) < 7:
         continue
     name, check, tier, seed, suite, rc, sigs = f[:7]
+    if rc == "-":
+        invalid_names.add(name)  # the repository's own suite notices this change: never a valid mutant, also in later --skip-suite runs
+    if name in invalid_names:
+        suite_seen = rows.get((name, check), (0, 0, suite))[2]
+        rows[(name, check)] = (tier, seed, suite if rc == "-" else suite_seen, "-", "invalid mutant (suite does not pass)")
+        continue
     rows[(name, check)] = (tier, seed, suite, rc, re.sub(r" \(\d+s\)$", "", sigs).strip())
 needs = {}
 for m in glob.glob(f"{ROOT}/seeded/*/meta.json"):
